@@ -32,6 +32,7 @@ func runC01(r *Run) {
 	specs = append(specs,
 		Spec{Name: "arr-small-T1024-L4", Kind: "arr-small", T: 1024, L: 4, Classes: []string{"t", "mid", "limA", "limA+", "A:t"}, Oracles: or},
 		Spec{Name: "arr-small-T32768-L3", Kind: "arr-small", T: 32768, L: 3, Classes: []string{"t", "limA", "limA+"}, Oracles: or},
+		Spec{Name: "arr-giant-T256-L2", Kind: "arr-small", T: 256, L: 2, Classes: []string{"t", "giant", "s:giant"}, Oracles: or},
 		Spec{Name: "arr-nodedup-T256", Kind: "arr-small", T: 256, L: ndL, Classes: []string{"limA", "A:t", "s:A:limA-,limA-"}, Oracles: or, Depth: nd, Extra: map[string]int{"nodedup": 1}},
 	)
 	// arrays that are themselves elements of an array: every array operation incl. type changes through the
@@ -73,4 +74,6 @@ func runC01(r *Run) {
 		}
 	}
 	r.ExploreSpecs(ts)
+	// many inlined children in one slab (possible at the larger legal slab sizes only): build, commit, reopen
+	r.RunTaskGroup("containers with 200-300 inlined children in one slab (slab sizes 8192, 32768)", "manykids", manyKidsArgs("C01"))
 }
